@@ -434,6 +434,28 @@ func suiteLex(o *suiteOut, r *rng, tier string, n int) {
 			}
 		}
 	}
+	// a CR LF line end before a %%+ line, with the CR on every offset around the scanner's refill boundaries
+	// (the buffer holds 512 bytes): the LF of the pair is found by a further read
+	for _, base := range []int{512, 1024, 1536, 4096} {
+		for off := base - 6; off <= base+3; off++ {
+			for _, eol := range []string{"\r\n", "\r", "\n"} {
+				head := "%!PS-Adobe-3.0\n% "
+				key := "%%Title: first"
+				fill := off - len(head) - 1 - len(key)
+				prog := head + strings.Repeat("x", fill) + "\n" + key + eol + "%%+ second" + eol + "%%Creator: c" + eol + "1 pop\n"
+				if prog[off] != eol[0] {
+					panic("DSC boundary case: line end not at the intended offset")
+				}
+				want := []postscript.Comment{{Key: "Title", Value: "first second"}, {Key: "Creator", Value: "c"}}
+				line := runCaseLine(0, false, prog)
+				_, intp := p.run(0, false, prog)
+				o.count("DSC continuation with the line end at a refill boundary")
+				if intp != nil && fmt.Sprint(intp.DSC) != fmt.Sprint(want) {
+					o.fail("C04", "%%Key: value lines (with %%+ continuations) are collected in order", line, fmt.Sprint(want), fmt.Sprint(intp.DSC))
+				}
+			}
+		}
+	}
 	// the library's own serialisation of any byte string / regular name reads back identically
 	for i := 0; i < nr; i++ {
 		s := make([]byte, r.intn(12))
